@@ -21,7 +21,7 @@ ASSUMPTIONS = ["finite float scores; targets are floats (incl. one ulp outside [
 
 
 def n_cases(tier):
-    return 600 if tier == "quick" else 40000 + len(thr_common.EXH_THR)
+    return 1400 if tier == "quick" else 40000 + len(thr_common.EXH_THR)
 
 
 def gen_one(rng, i, tier):
